@@ -2,7 +2,7 @@
 import asyncio
 from ..runner import Stage
 from . import sensorprop as SP
-from .. import invmon as IM, siminv as SI, coqrun as C
+from .. import invmon as IM, siminv as SI, coqrun as C, vloop as V, peer as PEER, frames as F
 
 WATCH = [47000, 45248, 45252, 45356, 47510, 47511, 47512, 47533] + list(range(47547, 47571)) + list(range(47589, 47595))
 DEF_IDS = ['eco_mode_1', 'eco_mode_2', 'eco_mode_3', 'eco_mode_4', 'peak_shaving_mode']
@@ -82,6 +82,73 @@ def _enc_log(entries):
     return out
 
 
+def _host_payload(salt):
+    return lambda reg, count: bytes((b + salt) & 255 for b in F.tag_payload(reg, count))
+
+
+def _transport_run(goodwe, objs, scripts, offsets):
+    """objs: [(family, host, port)]; runs the calls concurrently on ONE virtual-time loop, every host behind its own scripted peer.
+    -> per object (requests seen by its peer without the Modbus/TCP transaction id, outcome)"""
+    loop = V.VLoop()
+    by_host = {host: sc for (_, host, _), sc in zip(objs, scripts)}
+    loop.peer_factory = lambda lp, sock, kind, remote: PEER.Peer(lp, sock, kind, remote, by_host[remote[0]])
+    cls = dict(ET=goodwe.ET, DT=goodwe.DT, ES=goodwe.ES)
+
+    async def one(fam, host, port, off):
+        inv = cls[fam](host, port, 0, 1, 2)
+        await asyncio.sleep(off / 1000)
+        try:
+            if fam == 'ES': r = await inv._read_from_socket(inv._READ_DEVICE_RUNNING_DATA)      # a command object shared by all ES objects
+            else: r = await inv._read_from_socket(inv._READ_RUNNING_DATA)
+            return ['ok', r.response_data().hex()]
+        except Exception as ex:      # noqa
+            return ['exc', type(ex).__name__]
+
+    async def main(lp):
+        return await asyncio.gather(*[one(f, h, p, o) for (f, h, p), o in zip(objs, offsets)])
+    lp, out = V.run(main, loop)
+    res = out[1] if out[0] == 'ok' else [[out[0], str(out[1])[:80]]] * len(objs)
+    reqs = []
+    for sc in scripts:
+        reqs.append([(raw[2:] if len(raw) > 6 and raw[2:4] == b'\x00\x00' and raw[:2] != b'\xaa\x55' else raw).hex() for _, raw, _, _ in sc.log])
+    return [(reqs[i], res[i]) for i in range(len(objs))], list(loop.loop_exceptions)
+
+
+def stage_two_obj_transport(ctx):
+    """two inverter objects polled CONCURRENTLY through the real protocol classes on one virtual-time loop, each behind its own scripted peer with its own
+    register contents (answers whole, late but in time, in two fragments, dropped): every object must transmit the requests and obtain the outcome
+    of its solo run with the same script"""
+    st = Stage('two-object-transport-concurrency')
+    rng = ctx.rng
+    letters_pool = ['N', dict(late=0.5), dict(frag=7, delay=0.4, second='exact'), dict(frag=12, delay=0.3, second='exact'), 'D', 'F']
+    pairs = [('ES', 8899, 'ES', 8899), ('ET', 8899, 'ET', 8899), ('DT', 8899, 'DT', 8899), ('ET', 502, 'ET', 502), ('ES', 8899, 'ET', 8899), ('DT', 502, 'DT', 8899), ('ES', 8899, 'DT', 8899)]
+    trials = []
+    for fa, pa, fb, pb in pairs:
+        for off in (0, 100):          # both answers fragmented, interleaved A1 B1 A2 B2
+            trials.append((fa, pa, fb, pb, [dict(frag=9, delay=0.4, second='exact')], [dict(frag=9, delay=0.4, second='exact')], [0, off]))
+        for _ in range(2 if not ctx.deep else 20):
+            trials.append((fa, pa, fb, pb, [rng.choice(letters_pool) for _ in range(rng.randrange(1, 4))], [rng.choice(letters_pool) for _ in range(rng.randrange(1, 4))],
+                           [0, rng.choice([0, 50, 100, 300, 1000])]))
+    for fa, pa, fb, pb, la, lb, offs in trials:
+        goodwe = SI.reload_goodwe()
+        objs = [(fa, '10.0.0.1', pa), (fb, '10.0.0.2', pb)]
+        def scripts(): return [PEER.Script(list(la), default='N', timeout=1, payload_fn=_host_payload(17)), PEER.Script(list(lb), default='N', timeout=1, payload_fn=_host_payload(101))]
+        together, exc = _transport_run(goodwe, objs, scripts(), offs)
+        cfg = dict(A=dict(family=fa, port=pa, answers=[str(x) for x in la]), B=dict(family=fb, port=pb, answers=[str(x) for x in lb]), start_offsets_ms=offs)
+        st.case(repr(cfg), sample=cfg if len(st.samples) < 3 else None)
+        for i, name in enumerate('AB'):
+            goodwe = SI.reload_goodwe()
+            sc = scripts()[i]
+            alone, _ = _transport_run(goodwe, [objs[i]], [sc], [offs[i]])
+            if alone[0] != together[i]:
+                what = 'requests' if alone[0][0] != together[i][0] else 'result'
+                st.violation('transport-interference', f'object {name} ({objs[i][0]} port {objs[i][2]}): {what} differ when object {"BA"[i]} is polled concurrently: alone '
+                                                       f'{len(alone[0][0])} request(s), outcome {str(alone[0][1])[:60]}; together {len(together[i][0])} request(s), outcome {str(together[i][1])[:60]}',
+                             dict(config=cfg, object=name, alone=alone[0], together=together[i]))
+        if exc: st.violation('loop-exception', f'exception in an event-loop callback while two objects are polled concurrently: {exc[0]}', dict(config=cfg))
+    return st
+
+
 def stage_two_obj_model(ctx):
     """Model/TwoObj.v (programs and shapes generated from the source) against two real ET objects (platform 205 and 745, ARM fw 22) on two
     simulated inverters in one process: every call's result and register transactions, and the attributes of the shared Schedule definition
@@ -154,7 +221,7 @@ SPEC = dict(
         technique='Coq non-interference proof on a two-object model with generated programs + refutation theorems for the known findings + '
                   'generated shared-state inventory + model correspondence on two real objects + two-object interleaving search with solo-run oracle',
         design_ref='DESIGN.md section 5 (C20)'),
-    stages=[stage_two_obj_model, SP.inv_stage('two-object-interleavings', IM.mon_indep)],
+    stages=[stage_two_obj_model, stage_two_obj_transport, SP.inv_stage('two-object-interleavings', IM.mon_indep)],
     theorems=['C20_untouching_neighbour_does_not_interfere', 'C20_schedule_free_interleavings_are_independent', 'C20_touching_settings', 'C20_touching_modes',
               'C20_untouching_example', 'C20_requests_differ_refuted', 'C20_requests_differ_witness', 'C20_returned_value_changes_refuted',
               'C20_returned_value_changes_same_object', 'C20_shared_state_inventory', 'C20_schedule_read_value_is_the_model',
